@@ -2,6 +2,7 @@ import Driver.Disk
 import Driver.Reactor
 import Driver.Item
 import Driver.RateLimiter
+import Driver.Stats
 /-! zdriver: `zdriver <domain> [--base]` reads one JSON object per line, prints one result line each. -/
 open Lean
 
@@ -16,6 +17,7 @@ def stateless (f : Bool → Json → Except String String) : Domain :=
 
 def domains : List (String × Domain) := [
   ("disk", stateless Driver.Disk.step),
+  ("stats", stateless Driver.Stats.step),
   ("diskwatch", stateless Driver.Disk.stepWatch),
   ("item", { σ := Zeno.Model.Item.Tree, init := Driver.Item.init, step := Driver.Item.step }),
   ("rl", { σ := Driver.RateLimiter.St, init := {}, step := Driver.RateLimiter.step }),
